@@ -274,11 +274,30 @@ class Site:
     # (S) ------------------------------------------------------------------
     def as_statements(self, form: str, target_stmt: ast.stmt) -> list[ast.stmt]:
         env, rename, pre = self.bind()
+        # `T = helper(..)` where the helper returns its local `r` on every path: call the local T and drop the copy
+        same_as_target = None
+        if form == "assign" and isinstance(target_stmt, ast.Assign) and len(target_stmt.targets) == 1 \
+                and isinstance(target_stmt.targets[0], ast.Name):
+            T = target_stmt.targets[0].id
+            rets = [n for n in _own_walk(self.callee) if isinstance(n, ast.Return)]
+            names = {n.value.id for n in rets if isinstance(n.value, ast.Name)}
+            a_ = self.callee.args
+            params = {p.arg for p in a_.posonlyargs + a_.args + a_.kwonlyargs}
+            if rets and len(names) == 1 and all(isinstance(n.value, ast.Name) for n in rets):
+                r = next(iter(names))
+                used = {n.id for n in _own_walk(self.callee) if isinstance(n, ast.Name)}
+                arg_names = {n.id for v in env.values() for n in ast.walk(v) if isinstance(n, ast.Name)}
+                if r not in params and r in _stored_names(self.callee) and (T == r or T not in used) and T not in arg_names \
+                        and T not in rename.values():
+                    rename[r] = T
+                    same_as_target = T
         sub = _Subst(env, rename)
         body = [sub.visit(copy.deepcopy(s)) for s in _body(self.callee)]
 
         def ret(e: ast.expr | None) -> list[ast.stmt]:
             v = e if e is not None else ast.Constant(None)
+            if same_as_target is not None and isinstance(v, ast.Name) and v.id == same_as_target:
+                return []
             if form == "expr":
                 return [ast.Expr(v)] if any(isinstance(x, ast.Call) for x in ast.walk(v)) else []
             if form == "assign":
